@@ -67,6 +67,7 @@ func weightsFor(profile string) map[string]int {
 		base["relay"] = 14
 		base["sign_all"] = 10
 	case "C02", "C03":
+		base["phantom_orch"] = 3
 		base["val_recreate"] = 3
 		base["rotate_reclaim"] = 3
 		base["byz_claim"] = 8
@@ -101,6 +102,7 @@ func weightsFor(profile string) map[string]int {
 		base["set_keys"] = 22
 		base["orch_release_steal"] = 3
 		base["val_removed_steal"] = 3
+		base["phantom_orch"] = 3
 		base["poll_all"] = 12
 		base["ext_deposit"] = 10
 		base["stake"] = 4
@@ -374,6 +376,8 @@ func (g *Gen) Step() {
 			w.St.Fault("claim_from_foreign_account")
 		case 3:
 			in.As = "oper"
+		case 4:
+			in.Mut = "then_fail"
 		}
 		g.emit(in)
 	case "sign_all":
@@ -433,6 +437,20 @@ func (g *Gen) Step() {
 		g.oracleRound()
 	case "holders_split":
 		g.holdersSplit()
+	case "phantom_orch":
+		// a registration naming a funded stranger as orchestrator is rolled back with its transaction; the stranger
+		// then reports events, and a validator's claims in a failed transaction are followed by its real ones
+		v := g.R.Intn(len(w.Vals))
+		t := g.token()
+		g.emit(Intent{T: "ext_deposit", U: g.R.Intn(len(w.Users)), Chain: t.Chain, Chain2: "hub", Denom: t.Denom, Amt: g.amount(big.NewInt(1000000)), Fee: "0"})
+		g.emit(Intent{T: "set_keys", V: v, Chain: t.Chain, Op: "poison_orch", Pick: g.R.Intn(50)})
+		g.emit(Intent{T: "block", Dt: 5, N: 1})
+		g.emit(Intent{T: "orch_poll", V: v, Chain: t.Chain, N: 1 + g.R.Intn(3), As: "foreign1"})
+		g.emit(Intent{T: "orch_poll", V: (v + 1) % len(w.Vals), Chain: t.Chain, N: 2, Mut: "then_fail"})
+		g.emit(Intent{T: "block", Dt: 5, N: 1})
+		g.emit(Intent{T: "orch_poll", V: (v + 1) % len(w.Vals), Chain: t.Chain, N: 10})
+		g.emit(Intent{T: "block", Dt: 5, N: 1})
+		w.St.Probe("phantom-orchestrator-scenario")
 	case "oracle_claim":
 		g.oracleClaim(g.R.Intn(len(w.Vals)))
 	case "byz_claim":
